@@ -63,7 +63,7 @@ def _tier(ctx):
         "san_hw": (1, 3) if q else (1, 2, 3, 16),
         "haf_T": {1: 8, 2: 8, 3: 7, 4: 6} if q else {1: 12, 2: 10, 3: 10, 4: 10, 5: 8, 6: 6},
         # batched variants: EVERY base occupation vector (last entry zero or not) up to the total, every cutoff
-        "hafb_T": {1: 6, 2: 6, 3: 5, 4: 5} if q else {1: 12, 2: 10, 3: 8, 4: 7, 5: 6, 6: 6},
+        "hafb_T": {1: 6, 2: 6, 3: 5, 4: 5} if q else {1: 10, 2: 8, 3: 8, 4: 7, 5: 6, 6: 6},
         "hafb_cutoffs": tuple(range(1, 9)),
         "jaxhaf_T": 3 if q else 6,
         "tor_n": 5 if q else 6,
